@@ -73,6 +73,11 @@ func c05Body(c *vk.Ctx, cs hCase) {
 					if st.destNode != "" && st.succeeded[st.destNode] {
 						continue // handed to its destination node: the node may let go of it
 					}
+					if st.destNode != "" && w.s.connected(st.destNode) {
+						// while the destination node itself is a connected peer the node only tries direct
+						// delivery and does not consult the routing algorithm (see DESIGN.md, interpretation notes)
+						continue
+					}
 					if !w.sentTo(news, st, pn) {
 						w.s.failf("c05.epidemic-not-offered", "after %s: bundle %d is held by the node, %s is newly connected, is not the bundle's previous node and has not got it yet, but no transmission to %s was attempted", w.step, i, pn, pn)
 					}
